@@ -36,19 +36,25 @@ CTol == 16                 \* the constant of the kappa-proportional bound
 CEnv == 16                 \* the constant of the cofactor forward-error envelope
 CondMax(t) == IF t = "f32" THEN QI(10000) ELSE QI(100000000)
 EpsQ(f) == QFromD(Eps(f))
-Sq(ws) == LAForceSeq(QSeq(ws))
+Sq(ws) == LAQSeqOfW(ws)                         \* observed components as exact rationals (fast decoder of GlmLinAlg)
+\* Observed values are unreduced dyadic fractions p / 2^j with a different j per component; sums of such values multiply
+\* their denominators (Exact!QAdd does not reduce).  Inputs that enter sums and products are therefore brought to ONE
+\* common power-of-two denominator first (same values): all sums below then stay on a common denominator.
+Nrm(s) == LALet1(s, LAMBDA t : LALet1(LASeqExp(t), LAMBDA k : LASeqMul2k(LASeqUp(t, k), -k)))
+SqN(ws) == Nrm(Sq(ws))
 \* magnitude window of the inputs of the tolerance mode: 0 or 2^-40 <= |x| <= 2^40
 Pow40 == QFromD(DPow2(40))
 PowM40 == QFromD(DPow2(-40))
 InWindow(s) == \A i \in 1..Len(s) : QIsZero(s[i]) \/ (QLe(PowM40, QAbs(s[i])) /\ QLe(QAbs(s[i]), Pow40))
 
 \* ---- part verdicts: "ok" | "bad" | "skip" | "kd"
-Fold(parts) ==        \* parts: sequence of <<name, status>>
+KDIds == {"KD-C10-cofactor-cancellation", "KD-C10-inverseTranspose-mat2-untransposed"}
+Fold(parts) ==        \* parts: sequence of <<name, status>>, status = "ok" | "bad" | "skip" | a known-deviation id
     LALet1(parts, LAMBDA p :
       LET bad == {i \in 1..Len(p) : p[i][2] = "bad"}
-          kd == {i \in 1..Len(p) : p[i][2] = "kd"}
+          kd == {i \in 1..Len(p) : p[i][2] \in KDIds}
       IN IF bad # {} THEN [v |-> "bad", id |-> "", info |-> p[CHOOSE i \in bad : \A j \in bad : i <= j][1]]
-         ELSE IF kd # {} THEN [v |-> "known", id |-> "KD-C10-cofactor-cancellation", info |-> p[CHOOSE i \in kd : TRUE][1]]
+         ELSE IF kd # {} THEN LET i == CHOOSE i \in kd : \A j \in kd : i <= j IN [v |-> "known", id |-> p[i][2], info |-> p[i][1]]
          ELSE IF \A i \in 1..Len(p) : p[i][2] = "skip" THEN [v |-> "skip", id |-> "", info |-> ""]
          ELSE [v |-> "ok", id |-> "", info |-> ""])
 Skip == [v |-> "skip", id |-> "", info |-> ""]
@@ -64,7 +70,9 @@ SuiteExact(ev, n, M, B, v) ==
       Fold(<< <<"det", ExactPart(ev, "det", <<det>>)>>,
               <<"detT", ExactPart(ev, "detT", <<det>>)>>,
               <<"inv", ExactPart(ev, "inv", inv)>>,
-              <<"invT", ExactPart(ev, "invT", LITranspose(inv, n))>>,
+              <<"invT", LALet1(ExactPart(ev, "invT", LITranspose(inv, n)), LAMBDA st :
+                          \* known deviation: the 2x2 inverseTranspose returns the inverse itself (not transposed)
+                          IF st = "bad" /\ n = 2 /\ LISmallInts(ev.invT) = inv THEN "KD-C10-inverseTranspose-mat2-untransposed" ELSE st)>>,
               <<"adj", ExactPart(ev, "adj", adj)>>,
               <<"bdm", ExactPart(ev, "bdm", bdm)>>,
               <<"bdme", ExactPart(ev, "bdme", bdm)>>,
@@ -78,75 +86,127 @@ SuiteExact(ev, n, M, B, v) ==
                                ELSE ExactPart(ev, "ainv", LIAffineInverseUni(A, n + 1)))>>,
               <<"ainvM", IF ~Has(ev, "ainvM") \/ ~LIIsAffine(M, n) THEN "skip" ELSE ExactPart(ev, "ainvM", inv)>> >>))))
 
-\* ---------------------------------------------------------------- suite, tolerance mode (rationals)
-TolPart(ev, key, f, exp, scale) ==
-    IF ~Has(ev, key) THEN "skip" ELSE IF ~AllFin(ev[key]) THEN "bad"
-    ELSE LALet3(Sq(ev[key]), exp, scale, LAMBDA obs, ex, sc : IF NearAllRel(obs, ex, CTol, sc, f) THEN "ok" ELSE "bad")
-\* a part that may fall back on the cofactor envelope: env = sequence of per-component absolute bounds (already times eps)
-TolPartEnv(ev, key, f, exp, scale, env) ==
-    IF ~Has(ev, key) THEN "skip" ELSE IF ~AllFin(ev[key]) THEN "bad"
-    ELSE LALet3(Sq(ev[key]), exp, scale, LAMBDA obs, ex, sc :
-           IF NearAllRel(obs, ex, CTol, sc, f) THEN "ok"
-           ELSE LALet1(env, LAMBDA en : IF \A i \in 1..Len(ex) : QNear(obs[i], ex[i], en[i]) THEN "kd" ELSE "bad"))
-ResidPart(ev, f, M, kap) ==      \* postcondition on the logged inverse
-    IF ~Has(ev, "inv") THEN "skip" ELSE IF ~AllFin(ev.inv) THEN "bad"
-    ELSE LALet2(Mat(M.c, M.r, Sq(ev.inv)), QMul(QMulInt(EpsQ(f), CTol), kap), LAMBDA X, tol :
-           IF QLe(LAResidual(X, M, MIdentity(M.c)), tol) /\ QLe(LAResidual(M, X, MIdentity(M.c)), tol) THEN "ok" ELSE "bad")
+\* ---------------------------------------------------------------- suite, tolerance mode (exact, on scaled integers)
+\* All quantities are kept as INTEGERS with explicit denominators (rationals with denominator 1 are cheap in Exact.tla;
+\* cross-multiplying unreduced fractions with 100-bit denominators in every comparison is not):
+\*   M = Mi / 2^k, B = Bi / 2^kB, v = vi / 2^kv  (Mi, Bi, vi integer), D = |det Mi|, sD = sign, adjI = adj(Mi)
+\*   inverse(M) = sD adjI 2^k / D,  adj(M) = adjI / 2^((n-1)k),  det(M) = sD D / 2^(nk)
+\*   kappa = NM NA / D with NM = |Mi|_inf, NA = |adjI|_inf
+\* An observed sequence is o_i / 2^j (o_i integer).  |o_i / 2^j - num_i / den| <= tn / td  <=>  |o_i den - num_i 2^j| td <= tn den 2^j.
+Pow2Q(k) == QFromD(DPow2(k))                                       \* k >= 0: an integer
+Shl(q, k) == LAQMul2k(q, k)                                        \* q * 2^k by shifting (k >= 0, q integer)
+ObsInt(ws) == LALet1(Sq(ws), LAMBDA t : LALet1(LASeqExp(t), LAMBDA j : [j |-> j, o |-> LASeqUp(t, j)]))
+SeqInt(s) == LALet1(s, LAMBDA t : LALet1(LASeqExp(t), LAMBDA j : [j |-> j, o |-> LASeqUp(t, j)]))      \* s = o / 2^j
+\* exact_i = num_i / (den 2^dk), tolerance_i = tn_i / (tdc den 2^tk)   (all integers, den, tdc > 0; tn a sequence or one value):
+\*   |o_i / 2^j - exact_i| <= tolerance_i   <=>   |o_i den 2^dk - num_i 2^j| tdc 2^tk <= tn_i 2^(dk + j)
+NearInt1(o, j, num, den, dk, tn, tdc, tk) ==
+    QLe(Shl(QMul(QAbs(QSub(Shl(QMul(o, den), dk), Shl(num, j))), tdc), tk), Shl(tn, dk + j))
+IntPart(ev, key, num, den, dk, tn, tdc, tk) ==
+    IF ~Has(ev, key) THEN "skip" ELSE IF ~LAAllFin(ev[key]) THEN "bad"
+    ELSE LALet3(ObsInt(ev[key]), num, <<den, tn, tdc>>, LAMBDA ob, nu, p :
+           IF Len(ob.o) = Len(nu) /\ \A i \in 1..Len(nu) : NearInt1(ob.o[i], ob.j, nu[i], p[1], dk, p[2], p[3], tk) THEN "ok" ELSE "bad")
+\* a part that may fall back on the cofactor envelope: the same shape with per-component numerators envN[i]
+IntPartEnv(ev, key, num, den, dk, tn, tdc, tk, envN) ==
+    LALet1(IntPart(ev, key, num, den, dk, tn, tdc, tk), LAMBDA st :
+      IF st # "bad" \/ ~LAAllFin(ev[key]) THEN st
+      ELSE LALet3(ObsInt(ev[key]), num, <<den, envN, tdc>>, LAMBDA ob, nu, p :
+             IF Len(ob.o) = Len(nu) /\ \A i \in 1..Len(nu) : NearInt1(ob.o[i], ob.j, nu[i], p[1], dk, p[2][i], p[3], tk)
+             THEN "KD-C10-cofactor-cancellation" ELSE "bad"))
 SeqT(s, n) == LAForceSeq([k \in 1..(n * n) |-> s[(((k - 1) % n)) * n + ((k - 1) \div n) + 1]])       \* transpose of a column-major n x n sequence
+SeqScale(s, x) == LALet2(s, x, LAMBDA t, y : LAForceSeq([i \in 1..Len(t) |-> QMul(t[i], y)]))
+AbsSeq(s) == LALet1(s, LAMBDA t : LAForceSeq([i \in 1..Len(t) |-> QAbs(t[i])]))
+C16 == QI(CTol)
 
 SuiteTol(ev, f, n, M, B, v) ==
-    LALet1(LASeqExp(M.e), LAMBDA k :
-    LALet1(LAMatUp(M, k), LAMBDA Mi :
+    LALet3(SeqInt(M.e), SeqInt(B.e), SeqInt(v), LAMBDA sm, sb, sv :
+    LALet3(Mat(n, n, sm.o), Mat(n, n, sb.o), sv.o, LAMBDA Mi, Bi, vi :
     LALet2(MDet(Mi), LAAdjugate(Mi), LAMBDA detI, adjI :
     IF QIsZero(detI) THEN Skip ELSE
-    LALet1(LAInverseFrom(adjI, detI), LAMBDA invI :
-    LALet1(LACond(Mi, invI), LAMBDA kap :
-    IF ~QLe(kap, CondMax(ev.t)) THEN Skip ELSE
-    LALet3(LAMatMul2k(invI, k), LAQMul2k(detI, -(n * k)), LAMatMul2k(adjI, -((n - 1) * k)), LAMBDA X, det, adj :
-    LALet3(LAMaxAbs(X), EpsQ(f), LAMul(B, X), LAMBDA xmax, eps, bdm :
-    \* the cofactor envelope, evaluated lazily (only when the kappa bound fails): with P = permanent of |M| and
-    \* Pa = permanent-adjugate of |M| the computed cofactor / determinant carry errors <= c eps Pa_ij / c eps P, hence
-    \*   |inverse_ij - exact_ij| <= CEnv eps (Pa_ij |det| + |adj_ij| P) / det^2   and   |det - exact| <= CEnv eps P
-    LET envInv == LALet3(LAAbs(Mi), QMulInt(eps, CEnv), QMul(detI, detI), LAMBDA Ma, ce, d2 :
-                    LALet2(LAPerm(Ma), LAPermAdj(Ma), LAMBDA Pm, Pa :
-                      LAForceSeq([i \in 1..(n * n) |->
-                          LAQMul2k(QMul(ce, QDiv(QAdd(QMul(Pa.e[i], QAbs(detI)), QMul(QAbs(adjI.e[i]), Pm)), d2)), k)])))
-        envDet == <<LAQMul2k(QMul(QMulInt(eps, CEnv), LAPerm(LAAbs(Mi))), -(n * k))>>
+    LALet3(QAbs(detI), QI(QSign(detI)), <<sm.j, sb.j, sv.j>>, LAMBDA D, sD, ks :
+    LALet3(LANormInf(Mi), LANormInf(adjI), LAMaxAbs(adjI), LAMBDA NM, NA, amax :
+    \* kappa = NM NA / D <= CondMax
+    IF ~QLe(QMul(NM, NA), QMul(CondMax(ev.t), D)) THEN Skip ELSE
+    LALet3(ks[1], f.mb, QMul(C16, QMul(NM, NA)), LAMBDA k, mb, CK :                 \* CK = CTol * NM * NA  (CTol kappa = CK / D)
+    LALet3(SeqScale(adjI.e, sD), LAMul(Bi, adjI), LAMul(LAAbs(Bi), LAAbs(adjI)), LAMBDA invS, BA, BAabs :
+    LALet2(SeqScale(invS, Pow2Q(k)), QI(1), LAMBDA invN, one :                      \* inverse(M) = invN / D
+    \* the cofactor envelope, evaluated only when the kappa bound fails: with P = permanent of |Mi| and Pa = permanent-
+    \* adjugate of |Mi| the computed cofactor / determinant carry errors <= c eps Pa_ij / c eps P, hence
+    \*   |inverse_ij - exact_ij| <= CEnv eps 2^k (Pa_ij D + |adjI_ij| P) / D^2   and   |det - exact| <= CEnv eps P / 2^(nk)
+    LET Pm == LAPerm(LAAbs(Mi))
+        envInvN == LALet2(LAPermAdj(LAAbs(Mi)), Pm, LAMBDA pa, pm : LAForceSeq([i \in 1..(n * n) |->
+                       Shl(QMulInt(QAdd(QMul(pa.e[i], D), QMul(QAbs(adjI.e[i]), pm)), CEnv), k)]))
+        envMat == Mat(n, n, envInvN)
+        envMax == LAMaxAbs(envMat)
+        invTn == Shl(QMul(CK, amax), k)                                             \* inverse family: tolerance invTn / (D D 2^mb)
+        \* quotients: an entry error e of the inverse enters B X, X v, v X with the weights |B|, |v|:
+        \* tolerance CTol kappa eps max|X| * (|B|_inf resp. |v|_1); the envelope is propagated the same way
+        nB == LANormInf(Bi)
+        v1 == QSum(AbsSeq(vi))
     IN
-    Fold(<< <<"det", TolPartEnv(ev, "det", f, <<det>>, QMul(kap, QAbs(det)), envDet)>>,
-            <<"detT", TolPartEnv(ev, "detT", f, <<det>>, QMul(kap, QAbs(det)), envDet)>>,
-            <<"inv", TolPartEnv(ev, "inv", f, X.e, QMul(kap, xmax), envInv)>>,
-            <<"invT", TolPartEnv(ev, "invT", f, SeqT(X.e, n), QMul(kap, xmax), SeqT(envInv, n))>>,
-            <<"res", IF Has(ev, "inv") /\ AllFin(ev.inv) /\ ~NearAllRel(Sq(ev.inv), X.e, CTol, QMul(kap, xmax), f) THEN "skip"
-                     ELSE ResidPart(ev, f, M, kap)>>,
-            <<"adj", TolPart(ev, "adj", f, adj.e, QMul(kap, LAMaxAbs(adj)))>>,
-            <<"bdm", TolPart(ev, "bdm", f, bdm.e, QMul(kap, LAMaxAbs(LAMul(LAAbs(B), LAAbs(X)))))>>,
-            <<"bdme", TolPart(ev, "bdme", f, bdm.e, QMul(kap, LAMaxAbs(LAMul(LAAbs(B), LAAbs(X)))))>>,
-            <<"mdv", TolPart(ev, "mdv", f, LAMulVec(X, v), QMul(kap, QMaxAbs(LAMulVec(LAAbs(X), LAForceSeq([i \in 1..n |-> QAbs(v[i])])))))>>,
-            <<"vdm", TolPart(ev, "vdm", f, LAVecMul(v, X), QMul(kap, QMaxAbs(LAVecMul(LAForceSeq([i \in 1..n |-> QAbs(v[i])]), LAAbs(X)))))>>,
-            <<"P", IF ~Has(ev, "P") THEN "skip" ELSE IF ~AllFin(ev.P) THEN "bad"
-                   ELSE IF NearAllRel(Sq(ev.P), LAMMulD(B, M).e, 4, LAMaxAbs(LAMMulD(LAAbs(B), LAAbs(M))), f) THEN "ok" ELSE "bad">>,
+    Fold(<< <<"det", IntPartEnv(ev, "det", <<QMul(sD, D)>>, one, n * k, CK, one, mb + n * k, <<QMulInt(Pm, CEnv)>>)>>,
+            <<"detT", IntPartEnv(ev, "detT", <<QMul(sD, D)>>, one, n * k, CK, one, mb + n * k, <<QMulInt(Pm, CEnv)>>)>>,
+            <<"inv", IntPartEnv(ev, "inv", invN, D, 0, invTn, D, mb, envInvN)>>,
+            <<"invT", LALet1(IntPartEnv(ev, "invT", SeqT(invN, n), D, 0, invTn, D, mb, SeqT(envInvN, n)), LAMBDA st :
+                        \* known deviation: the 2x2 inverseTranspose returns the inverse itself (not transposed)
+                        IF st = "bad" /\ n = 2 /\ IntPart(ev, "invT", invN, D, 0, invTn, D, mb) = "ok"
+                        THEN "KD-C10-inverseTranspose-mat2-untransposed" ELSE st)>>,
+            \* residuals formed from the LOGGED inverse: |inv M - I|, |M inv - I| <= CTol kappa eps; when that fails, the
+            \* consequence of the cofactor envelope of the entries: n max|M| max(envelope)
+            <<"res", IF ~Has(ev, "inv") \/ ~LAAllFin(ev.inv) THEN "skip"
+                     ELSE LALet3(Mat(n, n, Sq(ev.inv)), QDiv(CK, Shl(D, mb)), <<0>>, LAMBDA X, tol, dummy :
+                          LALet2(LAResidual(X, M, MIdentity(n)), LAResidual(M, X, MIdentity(n)), LAMBDA r1, r2 :
+                            IF QLe(r1, tol) /\ QLe(r2, tol) THEN "ok"
+                            ELSE LALet1(QDiv(QMulInt(QMul(envMax, LAMaxAbs(M)), n), Shl(QMul(D, D), mb)), LAMBDA etol :
+                                   IF QLe(r1, etol) /\ QLe(r2, etol) THEN "KD-C10-cofactor-cancellation" ELSE "bad")))>>,
+            <<"adj", IntPartEnv(ev, "adj", adjI.e, one, (n - 1) * k, QMul(CK, amax), D, mb + (n - 1) * k,
+                                SeqScale(LAPermAdj(LAAbs(Mi)).e, QMulInt(D, CEnv)))>>,
+            <<"bdm", IntPartEnv(ev, "bdm", SeqScale(BA.e, Shl(sD, k)), D, ks[2], QMul(invTn, nB), D, mb + ks[2],
+                                SeqScale(LAMul(LAAbs(Bi), envMat).e, QI(2)))>>,
+            <<"bdme", IntPartEnv(ev, "bdme", SeqScale(BA.e, Shl(sD, k)), D, ks[2], QMul(invTn, nB), D, mb + ks[2],
+                                 SeqScale(LAMul(LAAbs(Bi), envMat).e, QI(2)))>>,
+            <<"mdv", IntPartEnv(ev, "mdv", SeqScale(LAMulVec(adjI, vi), Shl(sD, k)), D, ks[3], QMul(invTn, v1), D, mb + ks[3],
+                                SeqScale(LAMulVec(envMat, AbsSeq(vi)), QI(2)))>>,
+            <<"vdm", IntPartEnv(ev, "vdm", SeqScale(LAVecMul(vi, adjI), Shl(sD, k)), D, ks[3], QMul(invTn, v1), D, mb + ks[3],
+                                SeqScale(LAVecMul(AbsSeq(vi), envMat), QI(2)))>>,
+            <<"P", IntPart(ev, "P", LAMul(Bi, Mi).e, one, ks[2] + k, QMulInt(LAMaxAbs(LAMul(LAAbs(Bi), LAAbs(Mi))), 4), one, mb + ks[2] + k)>>,
             <<"detP", IF ~Has(ev, "detP") THEN "skip"
-                      ELSE LALet1(LADet(B), LAMBDA detB :
+                      ELSE LALet2(MDet(Bi), LAAdjugate(Bi), LAMBDA detB, adjB :
                              IF QIsZero(detB) THEN "skip"
-                             ELSE LALet1(QMul(kap, LACond(B, LAInverse(B))), LAMBDA kbm :
-                                    IF ~QLe(kbm, CondMax(ev.t)) THEN "skip"
-                                    ELSE TolPart(ev, "detP", f, <<QMul(detB, det)>>, QMulInt(QMul(kbm, QAbs(QMul(detB, det))), 2))))>>,
-            <<"ainv", IF ~Has(ev, "A") \/ ~Has(ev, "ainv") THEN "skip" ELSE IF ~AllFin(ev.A) THEN "skip"
-                      ELSE LALet1(Mat(n + 1, n + 1, Sq(ev.A)), LAMBDA A :
+                             ELSE LALet2(QMul(LANormInf(Bi), LANormInf(adjB)), QAbs(detB), LAMBDA KB, DB :      \* kappa(B) = KB / DB
+                                    IF ~QLe(QMul(QMul(NM, NA), KB), QMul(CondMax(ev.t), QMul(D, DB))) THEN "skip"
+                                    ELSE \* exact det(B) det(M) = detB sD D / 2^(n (kB + k)); tolerance 2 CTol kappa(M) kappa(B) eps |value|
+                                         \* envelope: (CEnv + n) eps permanent(|B| |M|)  (cofactor sum + rounding of the entries of B M)
+                                         IntPartEnv(ev, "detP", <<QMul(detB, QMul(sD, D))>>, one, n * (ks[2] + k),
+                                                    QMulInt(QMul(CK, KB), 2), one, mb + n * (ks[2] + k),
+                                                    <<QMulInt(LAPerm(LAMul(LAAbs(Bi), LAAbs(Mi))), CEnv + n)>>)))>>,
+            <<"ainv", IF ~Has(ev, "A") \/ ~Has(ev, "ainv") THEN "skip" ELSE IF ~LAAllFin(ev.A) THEN "skip"
+                      ELSE LALet1(Mat(n + 1, n + 1, SqN(ev.A)), LAMBDA A :
                              IF ~(LAIsAffine(A) /\ LAMatEq(LALinearPart(A), M) /\ InWindow(A.e)) THEN "skip"
-                             ELSE LALet1(LAAffineInverseWith(X, LATranslation(A)), LAMBDA AX :
-                                    LALet1(LACond(A, AX), LAMBDA kA :
-                                      IF ~QLe(kA, CondMax(ev.t)) THEN "skip"
-                                      ELSE TolPart(ev, "ainv", f, AX.e, QMul(kA, LAMaxAbs(AX))))))>>,
-            <<"ainvM", IF ~Has(ev, "ainvM") \/ ~LAIsAffine(M) THEN "skip" ELSE TolPart(ev, "ainvM", f, X.e, QMul(kap, xmax))>> >>))))))))
+                             ELSE \* t = ti / 2^kt;  inverse(A) = [X  -X t; 0 1] with X = sD adjI 2^k / D: numerators AXn over D 2^kt
+                                  LALet2(SeqInt(LATranslation(A)), SeqInt(A.e), LAMBDA st, sa :
+                                  LALet2(Shl(D, st.j), LAMulVec(adjI, st.o), LAMBDA Dn, at :
+                                  LALet1(LAForce(MFromFn(n + 1, n + 1, LAMBDA c, r :
+                                             IF r = n + 1 THEN (IF c = n + 1 THEN Dn ELSE QZero)
+                                             ELSE IF c = n + 1 THEN QNeg(Shl(QMul(at[r], sD), k))
+                                             ELSE Shl(QMul(MAt(adjI, c, r), sD), k + st.j))), LAMBDA AXn :
+                                  \* kappa(A) = |Ai|_inf |AXn|_inf / (2^kA D 2^kt); tolerance CTol kappa(A) eps max|AXn| / (D 2^kt)
+                                  LALet1(QMul(LANormInf(Mat(n + 1, n + 1, sa.o)), LANormInf(AXn)), LAMBDA KAn :
+                                    IF ~QLe(KAn, QMul(CondMax(ev.t), Shl(D, sa.j + st.j))) THEN "skip"
+                                    ELSE \* envelope: entries of X as for the inverse, translation column |envelope| |t| (twice, for the product)
+                                         IntPartEnv(ev, "ainv", AXn.e, D, st.j, QMul(C16, QMul(KAn, LAMaxAbs(AXn))), D, mb + sa.j + 2 * st.j,
+                                             LALet1(LAMulVec(envMat, AbsSeq(st.o)), LAMBDA et :
+                                               LAForce(MFromFn(n + 1, n + 1, LAMBDA c, r :
+                                                   IF r = n + 1 THEN QZero
+                                                   ELSE IF c = n + 1 THEN Shl(QMulInt(et[r], 2), sa.j + st.j)
+                                                   ELSE Shl(MAt(envMat, c, r), sa.j + 2 * st.j))).e)))))))>>,
+            <<"ainvM", IF ~Has(ev, "ainvM") \/ ~LAIsAffine(M) THEN "skip" ELSE IntPartEnv(ev, "ainvM", invN, D, 0, invTn, D, mb, envInvN)>> >>)))))))))
 
 Suite(ev) ==
     LALet3(LISmallInts(ev.a[1]), LISmallInts(ev.a[2]), LISmallInts(ev.a[3]), LAMBDA Mi, Bi, vi :
       IF LIAllSmall(Mi, 64) /\ LIAllSmall(Bi, 64) /\ LIAllSmall(vi, 64) /\ LIDet(Mi, ev.n) \in {-1, 1}
       THEN SuiteExact(ev, ev.n, Mi, Bi, vi)
-      ELSE IF ~(AllFin(ev.a[1]) /\ AllFin(ev.a[2]) /\ AllFin(ev.a[3])) THEN Skip
-      ELSE LALet3(Mat(ev.n, ev.n, Sq(ev.a[1])), Mat(ev.n, ev.n, Sq(ev.a[2])), Sq(ev.a[3]), LAMBDA M, B, v :
+      ELSE IF ~(LAAllFin(ev.a[1]) /\ LAAllFin(ev.a[2]) /\ LAAllFin(ev.a[3])) THEN Skip
+      ELSE LALet3(Mat(ev.n, ev.n, SqN(ev.a[1])), Mat(ev.n, ev.n, SqN(ev.a[2])), SqN(ev.a[3]), LAMBDA M, B, v :
              IF ~(InWindow(M.e) /\ InWindow(B.e) /\ InWindow(v)) THEN Skip
              ELSE SuiteTol(ev, TypeFmt(ev.t), ev.n, M, B, v)))
 
@@ -154,7 +214,7 @@ Suite(ev) ==
 SDiv(ev) ==
     LET f == TypeFmt(ev.t) IN
     LALet2(Fields(f, ev.a[1][1]), Sq(ev.a[2]), LAMBDA sf, M :
-      IF ~IsFinite(f, sf) \/ ~AllFin(ev.a[2]) THEN Skip ELSE
+      IF ~IsFinite(f, sf) \/ ~LAAllFin(ev.a[2]) THEN Skip ELSE
       LALet1(QFromD(Val(f, sf)), LAMBDA s :
         LET comp(i) == LET num == IF ev.op = "s/m" THEN s ELSE M[i] den == IF ev.op = "s/m" THEN M[i] ELSE s
                        IN IF QIsZero(den) THEN "skip"
@@ -181,8 +241,8 @@ Flip(ev) ==
 \* guard band: 64 eps relative around the threshold (length() / dot() of at most 4 terms carry a few ulp)
 Query(ev) ==
     LET f == TypeFmt(ev.t) IN
-    IF ~AllFin(ev.a[1]) \/ ~AllFin(ev.a[2]) THEN Skip ELSE
-    LALet3(Mat(ev.c, ev.r0, Sq(ev.a[1])), QW(ev.a[2][1]), QMulInt(EpsQ(f), 64), LAMBDA M, eps, rel :
+    IF ~LAAllFin(ev.a[1]) \/ ~LAAllFin(ev.a[2]) THEN Skip ELSE
+    LALet3(Mat(ev.c, ev.r0, SqN(ev.a[1])), LAQOfW(ev.a[2][1]), QMulInt(EpsQ(f), 64), LAMBDA M, eps, rel :
       IF QSign(eps) < 0 \/ ~InWindow(M.e) THEN Skip ELSE
       LALet1(CASE ev.op = "isNull" -> LAIsNullM(M, eps, rel)
                [] ev.op = "isIdentity" -> LAIsIdentityM(M, eps, rel)
@@ -198,8 +258,8 @@ Query(ev) ==
 CQR == 32
 Factor(ev) ==
     LET f == TypeFmt(ev.t) C == ev.c R == ev.r0 mn == IF C < R THEN C ELSE R isQR == ev.op = "qr" IN
-    IF ~AllFin(ev.a[1]) THEN Skip ELSE
-    LALet1(Mat(C, R, Sq(ev.a[1])), LAMBDA M :
+    IF ~LAAllFin(ev.a[1]) THEN Skip ELSE
+    LALet1(Mat(C, R, SqN(ev.a[1])), LAMBDA M :
       IF ~InWindow(M.e) THEN Skip ELSE
       LALet1(IF C = R THEN M
              ELSE IF isQR THEN LALet1(LAForce(MFromFn(mn, R, LAMBDA c, r : MAt(M, c, r))), LAMBDA K : LAMMulD(LATranspose(K), K))
@@ -210,7 +270,7 @@ Factor(ev) ==
       IF QIsZero(dG) THEN Skip ELSE
       LALet1(LACond(Gi, LAInverse(Gi)), LAMBDA kap :
       IF ~QLe(kap, CondMax(ev.t)) THEN Skip
-      ELSE IF ~(AllFin(ev.qm) /\ AllFin(ev.rm)) THEN Bad(ev.op \o ":finite")
+      ELSE IF ~(LAAllFin(ev.qm) /\ LAAllFin(ev.rm)) THEN Bad(ev.op \o ":finite")
       ELSE LALet3(IF isQR THEN Mat(mn, R, Sq(ev.qm)) ELSE Mat(C, mn, Sq(ev.qm)),
                   IF isQR THEN Mat(C, mn, Sq(ev.rm)) ELSE Mat(mn, R, Sq(ev.rm)),
                   QMul(QMulInt(EpsQ(f), CQR), kap), LAMBDA Qm, Rm, tolO :
